@@ -24,19 +24,21 @@ LEVEL_TEXT = ('The lower bound d_true >= d is decided by complete enumeration be
 LEVEL_NOTE = ('Trusted: mc/gf2.py; non-triviality is decided by anticommutation with the listed logicals, valid by '
               'C01. CSS reduction: a non-trivial logical (x|z) of a CSS code has a non-trivial x or z part of no '
               'larger weight. Deformed codes inherit d (weight-preserving relabelling, C08).')
-RULE = ('every (class, family size) with n <= bound whose half-weight table sum_{w<=ceil((d-1)/2)} C(n,w)[*3^w] is '
+RULE = ('every (class, family size) with n <= bound (plus the thin lattices with a side of length 1 that the five '
+        'open-boundary classes accept) whose half-weight table sum_{w<=ceil((d-1)/2)} C(n,w)[*3^w] is '
         'under the cap; one case per (class, size); non-trivial = cases with d >= 2 (a non-empty search space); '
         'evaluations = table entries enumerated; every deformed version of a covered code must report the same d; '
         'per-class sessions repeat the search for several sizes in one process')
 ASSUMPTIONS = ['listed logical operators are valid (C01)', 'GF(2) reference mc/gf2.py']
-BOUNDS = {'quick': {'max_n': 200, 'l_max_2d': 7, 'l_max_3d': 6, 'cap': 400000},
-          'thorough': {'max_n': 400, 'l_max_2d': 9, 'l_max_3d': 6, 'cap': 3000000}}
+BOUNDS = {'quick': {'max_n': 200, 'l_max_2d': 7, 'l_max_3d': 6, 'cap': 400000, 'l_thin': 4},
+          'thorough': {'max_n': 400, 'l_max_2d': 9, 'l_max_3d': 6, 'cap': 3000000, 'l_thin': 6}}
 
 
 def cases(tier, seed):
     b = BOUNDS[tier]
     cfgs = F.configs(b['max_n'], F.CLASSES_2D, l_max=b['l_max_2d'], deformed=False) + \
         F.configs(b['max_n'], F.CLASSES_3D, l_max=b['l_max_3d'], deformed=False)
+    cfgs += F.thin_configs(b['max_n'], l_max=b['l_thin'])      # thin open-boundary lattices (a side of length 1)
     out = [dict(c, cap=b['cap']) for c in cfgs]
     base = list(out)
     out += [{'part': 'session', 'cfgs': [dict(c, cap=min(b['cap'], 60000)) for c in seq]}
